@@ -1,5 +1,8 @@
 import C2paModel.Model.C11
 import C2paModel.Gen.C11Table
+import C2paModel.Lemmas.C11Sig
+import C2paModel.Lemmas.C11Norm
+import C2paModel.Lemmas.C11IO
 /-
 C11 — property theorems (format-hint reconciliation).
 
@@ -7,14 +10,29 @@ Statement: when the leading bytes of a stream identify a supported container, re
 gives the same result whatever format hint the caller supplies; the hint only matters when
 the bytes identify no container.
 
-What is proved here (for every byte string, every hint string and every container table
-satisfying the regenerated-table obligation `TableOk`): the format handed to the rest of the
-reader is in the *detected container's family* independently of the hint, and is the hint
-itself exactly when nothing is detected. That formats of one family are read identically
-(same handler type) is established end-to-end by the correspondence run (every fixture ×
-every format string), not by a theorem — see registry/C11.json `partial`.
+Layers (all tied to the code by the differential run):
+* `detect` / `resolve`   — abstract: the stream is its byte list;
+* `detectIO` / `resolveIO` — the read loop of `container_from_stream` with short reads,
+  `Interrupted`, read and seek errors; `detectIO_refines` links it to `detect`;
+* `readerOf` — the lookup `get_cailoader_handler` does with the resolved string, over the reader
+  map dumped from the running code.
+
+What is proved (every byte string, every hint, every I/O script, every table satisfying the
+regenerated-table obligations, which are re-proved by the kernel on every run):
+* the format handed on lies in the detected container's family whatever the hint
+  (`detected_wins`, also at the I/O level), and it selects the *same handler instance* whatever
+  the hint (`handler_hint_independent_current`);
+* the hint influences the family **iff** nothing is detected (`hint_matters_iff_undetected`);
+* detection looks only at the first 16 bytes, plus four bytes after an ID3 tag (`detect_prefix`,
+  `detect_congr`); which signature wins does not depend on the rule order except for the
+  "ftyp at offset 4" rule (`offset0_signatures_exclusive`, `detect_eq_of_signature`);
+* normalising the hint first changes nothing (`normalize_invariant`).
+That one handler instance reads one byte string in one way is not a theorem (the handlers are
+not modelled); see registry/C11.json `partial`.
 -/
 namespace C2pa.C11
+
+/-! ### helpers -/
 
 theorem firstMatch_mem (rs : List (Bool × Fmt)) (d : Fmt) (h : firstMatch rs = some d) :
     d ∈ rs.map (·.2) := by
@@ -27,36 +45,63 @@ theorem firstMatch_mem (rs : List (Bool × Fmt)) (d : Fmt) (h : firstMatch rs = 
     | true => simp at h; simp [h]
     | false => simp at h; simp [ih h]
 
-theorem rules_literals (pdf : Bool) (s : List UInt8) :
-    (rules pdf s).map (·.2) = detectLiterals pdf := by
-  cases pdf <;> simp [rules, detectLiterals]
+theorem rulesB_literals (pdf : Bool) (buf : List UInt8) (flac : Bool) :
+    (rulesB pdf buf flac).map (·.2) = detectLiterals pdf := by
+  cases pdf <;> simp [rulesB, detectLiterals]
 
-theorem detect_mem_literals (pdf : Bool) (s : List UInt8) (d : Fmt)
-    (h : detect pdf s = some d) : d ∈ detectLiterals pdf := by
-  unfold detect at h
+theorem detectB_mem_literals (pdf : Bool) (buf : List UInt8) (probe : Bool) (d : Fmt)
+    (h : detectB pdf buf probe = some d) : d ∈ detectLiterals pdf := by
+  unfold detectB at h
   split at h
   · cases h
-  · rw [← rules_literals pdf s]; exact firstMatch_mem _ _ h
+  · rw [← rulesB_literals pdf _ _]; exact firstMatch_mem _ _ h
+
+theorem detect_mem_literals (pdf : Bool) (s : List UInt8) (d : Fmt)
+    (h : detect pdf s = some d) : d ∈ detectLiterals pdf :=
+  detectB_mem_literals pdf _ _ d h
+
+theorem detectIO_mem_literals (pdf : Bool) (script : List Ev) (sf : Option Nat) (s : List UInt8)
+    (d : Fmt) (h : detectIO pdf script sf s = some d) : d ∈ detectLiterals pdf := by
+  unfold detectIO at h
+  split at h
+  · cases h
+  · split at h
+    · cases h
+    · split at h
+      · cases h
+      · exact detectB_mem_literals pdf _ _ d h
+
+theorem table_self (t : Table) (pdf : Bool) (d : Fmt) (hok : TableOk t pdf = true)
+    (hm : d ∈ detectLiterals pdf) : containerFromFormat t d = some d := by
+  unfold TableOk at hok
+  have := (List.all_eq_true.1 hok) d hm
+  simpa using this
+
+/-- The reconciliation step: a detected container of the table wins over every hint. -/
+theorem reconcile_detected (t : Table) (pdf : Bool) (hint d : Fmt) (hok : TableOk t pdf = true)
+    (hm : d ∈ detectLiterals pdf) : containerFromFormat t (reconcile t hint (some d)) = some d := by
+  have hself := table_self t pdf d hok hm
+  unfold reconcile
+  cases hh : containerFromFormat t hint with
+  | none => simpa using hself
+  | some h =>
+    by_cases heq : (h == d) = true
+    · have : h = d := by simpa using heq
+      simp [hh, this]
+    · simp [heq, hself]
+
+theorem reconcile_none (t : Table) (hint : Fmt) : reconcile t hint none = hint := by
+  unfold reconcile; cases containerFromFormat t hint <;> rfl
+
+/-! ### Detection wins — abstract layer -/
 
 /-- **Detection wins**: if the bytes identify container `d`, the resolved format belongs to
 family `d` whatever the hint. -/
 theorem detected_wins (t : Table) (pdf : Bool) (hint : Fmt) (s : List UInt8) (d : Fmt)
     (hok : TableOk t pdf = true) (hd : detect pdf s = some d) :
     containerFromFormat t (resolve t pdf hint s) = some d := by
-  have hself : containerFromFormat t d = some d := by
-    have hm := detect_mem_literals pdf s d hd
-    unfold TableOk at hok
-    have := (List.all_eq_true.1 hok) d hm
-    simpa using this
-  unfold resolve
-  rw [hd]
-  cases hh : containerFromFormat t hint with
-  | none => simpa using hself
-  | some h =>
-    by_cases heq : (h == d) = true
-    · have : h = d := by simpa using heq
-      simp [heq, hh, this]
-    · simp [heq, hself]
+  unfold resolve; rw [hd]
+  exact reconcile_detected t pdf hint d hok (detect_mem_literals pdf s d hd)
 
 /-- **Hint independence of the family** (corollary). -/
 theorem resolve_family_hint_independent (t : Table) (pdf : Bool) (h₁ h₂ : Fmt) (s : List UInt8)
@@ -64,31 +109,191 @@ theorem resolve_family_hint_independent (t : Table) (pdf : Bool) (h₁ h₂ : Fm
     containerFromFormat t (resolve t pdf h₁ s) = containerFromFormat t (resolve t pdf h₂ s) := by
   rw [detected_wins t pdf h₁ s d hok hd, detected_wins t pdf h₂ s d hok hd]
 
-/-- The hint is used unchanged when (and, up to family, only when) nothing is detected. -/
+/-- helper (unfolding): the hint is used unchanged when nothing is detected. -/
 theorem hint_used_if_undetected (t : Table) (pdf : Bool) (hint : Fmt) (s : List UInt8)
     (hd : detect pdf s = none) : resolve t pdf hint s = hint := by
-  unfold resolve; rw [hd]; cases containerFromFormat t hint <;> rfl
+  unfold resolve; rw [hd]; exact reconcile_none t hint
 
+/-- helper (unfolding) -/
 theorem resolve_is_hint_or_detected (t : Table) (pdf : Bool) (hint : Fmt) (s : List UInt8) (d : Fmt)
     (hd : detect pdf s = some d) :
     resolve t pdf hint s = d ∨
       (resolve t pdf hint s = hint ∧ containerFromFormat t hint = some d) := by
-  unfold resolve; rw [hd]
+  unfold resolve reconcile; rw [hd]
   cases hh : containerFromFormat t hint with
   | none => left; rfl
   | some h =>
     by_cases heq : (h == d) = true
     · right; have : h = d := by simpa using heq
-      simp [heq, this]
+      simp [this]
     · left; simp [heq]
 
-/-- Streams shorter than two bytes never identify a container. -/
+/-- helper (unfolding): streams shorter than two bytes never identify a container. -/
 theorem short_undetected (pdf : Bool) (s : List UInt8) (h : s.length < 2) : detect pdf s = none := by
-  unfold detect
+  unfold detect detectB
   have : (s.take 16).length < 2 := by rw [List.length_take]; omega
   rw [if_pos this]
 
-/-! ### Obligations on the regenerated table (re-checked on every run) -/
+/-- **The hint matters iff nothing is detected** (both clauses of the statement in one
+characterisation): two hints leading to different container families exist exactly when the bytes
+identify no container. `hdiff` only says the table knows at least two families (or one family and
+an unknown string). -/
+theorem hint_matters_iff_undetected (t : Table) (pdf : Bool) (s : List UInt8)
+    (hok : TableOk t pdf = true)
+    (hdiff : ∃ a b : Fmt, containerFromFormat t a ≠ containerFromFormat t b) :
+    (∃ h₁ h₂ : Fmt,
+        containerFromFormat t (resolve t pdf h₁ s) ≠ containerFromFormat t (resolve t pdf h₂ s))
+      ↔ detect pdf s = none := by
+  constructor
+  · rintro ⟨h₁, h₂, hne⟩
+    cases hd : detect pdf s with
+    | none => rfl
+    | some d => exact absurd (resolve_family_hint_independent t pdf h₁ h₂ s d hok hd) hne
+  · intro hd
+    obtain ⟨a, b, hab⟩ := hdiff
+    exact ⟨a, b, by rw [hint_used_if_undetected t pdf a s hd, hint_used_if_undetected t pdf b s hd]; exact hab⟩
+
+/-! ### Detection looks at the leading bytes only -/
+
+theorem rulesB_flac_irrelevant (pdf : Bool) (buf : List UInt8) (f₁ f₂ : Bool)
+    (h : isId3 buf = false) : rulesB pdf buf f₁ = rulesB pdf buf f₂ := by
+  unfold rulesB; simp [h]
+
+/-- Two streams with the same first 16 bytes and the same four bytes at the ID3 probe offset are
+detected alike. -/
+theorem detect_congr (pdf : Bool) (s₁ s₂ : List UInt8) (h16 : s₁.take 16 = s₂.take 16)
+    (hprobe : sliceEq s₁ (10 + id3Size (s₁.take 16)) mFLaC
+      = sliceEq s₂ (10 + id3Size (s₁.take 16)) mFLaC) :
+    detect pdf s₁ = detect pdf s₂ := by
+  unfold detect
+  rw [← h16, hprobe]
+
+/-- **Leading bytes**: unless the buffer starts with an ID3 tag header, detection is a function of
+the first 16 bytes (no rule seeks). -/
+theorem detect_prefix (pdf : Bool) (s : List UInt8) (h : isId3 (s.take 16) = false) :
+    detect pdf s = detect pdf (s.take 16) := by
+  unfold detect
+  have ht : (s.take 16).take 16 = s.take 16 := by rw [List.take_take]; simp
+  rw [ht]
+  unfold detectB
+  rw [rulesB_flac_irrelevant pdf (s.take 16) _ (sliceEq (s.take 16) (10 + id3Size (s.take 16)) mFLaC) h]
+
+/-- hence bytes after the 16th never matter for a non-ID3 stream -/
+theorem detect_append_irrelevant (pdf : Bool) (p x y : List UInt8) (hp : p.length = 16)
+    (h : isId3 p = false) : detect pdf (p ++ x) = detect pdf (p ++ y) := by
+  have e : ∀ z : List UInt8, (p ++ z).take 16 = p := by
+    intro z; rw [← hp]; simp
+  rw [detect_prefix pdf (p ++ x) (by rw [e]; exact h), detect_prefix pdf (p ++ y) (by rw [e]; exact h), e, e]
+
+/-! ### Which signature wins does not depend on the rule order
+
+Lemmas/C11Sig proves `offset0_signatures_exclusive` (no two offset-0 magic tests hold together,
+for any buffer) and `detect_eq_of_signature` (a signature that is present is the result, except
+that "ftyp at offset 4" precedes fLaC / ID3 / MPEG sync / %PDF). -/
+
+/-! ### Normalising the hint first changes nothing (idempotence lemmas: Lemmas/C11Norm) -/
+
+/-- **Normalising the hint before the call does not change the family handed on** (the hint is
+passed on verbatim when its family matches, so this is what makes " IMAGE/JPEG " and
+"image/jpeg" interchangeable for every later normalising lookup). -/
+theorem normalize_invariant (t : Table) (pdf : Bool) (h : Fmt) (s : List UInt8) :
+    containerFromFormat t (resolve t pdf (normalize h) s)
+      = containerFromFormat t (resolve t pdf h s) := by
+  unfold resolve reconcile
+  rw [containerFromFormat_normalize]
+  cases containerFromFormat t h with
+  | none => cases detect pdf s <;> simp [containerFromFormat_normalize]
+  | some c =>
+    cases detect pdf s with
+    | none => simp [containerFromFormat_normalize]
+    | some d => by_cases hcd : (c == d) = true <;> simp [hcd, containerFromFormat_normalize]
+
+/-- … and the normalised resolved string (what every later lookup uses) is literally the same
+whether or not the caller normalised the hint. -/
+theorem normalize_resolve (t : Table) (pdf : Bool) (h : Fmt) (s : List UInt8) :
+    normalize (resolve t pdf (normalize h) s) = normalize (resolve t pdf h s) := by
+  unfold resolve reconcile
+  rw [containerFromFormat_normalize]
+  cases containerFromFormat t h with
+  | none => cases detect pdf s <;> simp [normalize_idem]
+  | some c =>
+    cases detect pdf s with
+    | none => simp [normalize_idem]
+    | some d => by_cases hcd : (c == d) = true <;> simp [hcd, normalize_idem]
+
+/-! ### I/O level: the read loop refines the abstract layer (fill-loop lemmas: Lemmas/C11IO) -/
+
+/-- **Refinement**: whatever way a well-behaved stream chops up its reads (short reads of any
+size, `Interrupted` at any point), `container_from_stream` detects exactly what the abstract
+layer detects on the byte string. -/
+theorem detectIO_refines (pdf : Bool) (script : List Ev) (s : List UInt8) (hb : Benign script) :
+    detectIO pdf script none s = detect pdf s :=
+  (detectIO_eq pdf script s (s.take 16) ((s.drop (10 + id3Size (s.take 16))).take 4)
+    (fill_benign_fst 16 script s hb)
+    (fill_benign_fst 4 _ _ (fill_benign_snd 16 script s hb))).trans
+    (congrArg (detectB pdf (s.take 16)) (sliceEq_mFLaC s (10 + id3Size (s.take 16))).symm)
+
+theorem resolveIO_refines (t : Table) (pdf : Bool) (script : List Ev) (hint : Fmt) (s : List UInt8)
+    (hb : Benign script) : resolveIO t pdf script none hint s = resolve t pdf hint s := by
+  unfold resolveIO resolve; rw [detectIO_refines pdf script s hb]
+
+/-- **A hard read error while sniffing hands the decision to the hint**: if the stream fails
+before the 16-byte buffer is full (and before its end), nothing is detected and the hint is
+used unchanged — for every hint, stream and error position. -/
+theorem resolveIO_read_error_uses_hint (t : Table) (pdf : Bool) (pre post : List Ev)
+    (sf : Option Nat) (hint : Fmt) (s : List UInt8) (hb : Benign pre)
+    (h16 : budget pre < 16) (hs : budget pre < s.length) :
+    resolveIO t pdf (pre ++ Ev.fail :: post) sf hint s = hint := by
+  have hnone : detectIO pdf (pre ++ Ev.fail :: post) sf s = none :=
+    detectIO_none_of_fill_none pdf _ sf s
+      (fill_hits_error 16 pre post hb s [] (by simpa using h16) hs)
+  unfold resolveIO; rw [hnone]; exact reconcile_none t hint
+
+/-- **Detection wins at the I/O level too, faults or not**: whatever the stream does, if
+`container_from_stream` returns `d` the resolved format is in family `d` for every hint. -/
+theorem detected_wins_io (t : Table) (pdf : Bool) (script : List Ev) (sf : Option Nat)
+    (hint : Fmt) (s : List UInt8) (d : Fmt)
+    (hok : TableOk t pdf = true) (hd : detectIO pdf script sf s = some d) :
+    containerFromFormat t (resolveIO t pdf script sf hint s) = some d := by
+  unfold resolveIO; rw [hd]
+  exact reconcile_detected t pdf hint d hok (detectIO_mem_literals pdf script sf s d hd)
+
+/-! ### Same family ⇒ same handler (over the reader map of the running code) -/
+
+/-- the container map and the reader map agree: every registered string selects the same handler
+instance as its container id, and that handler exists -/
+def FamilyOk (t readers : Table) : Bool :=
+  t.all (fun e => readerOfKey readers e.1 == readerOfKey readers e.2 && (readerOfKey readers e.1).isSome)
+
+theorem reader_of_family (t readers : Table) (f d : Fmt) (hfam : FamilyOk t readers = true)
+    (h : containerFromFormat t f = some d) :
+    readerOf readers f = readerOfKey readers d ∧ (readerOfKey readers d).isSome = true := by
+  unfold containerFromFormat at h
+  cases hf : t.find? (fun e => e.1 == normalize f) with
+  | none => rw [hf] at h; cases h
+  | some e =>
+    rw [hf] at h
+    have hd : e.2 = d := by simpa using h
+    have hmem := List.mem_of_find?_eq_some hf
+    have hkey : e.1 = normalize f := by simpa using List.find?_some hf
+    unfold FamilyOk at hfam
+    have := (List.all_eq_true.1 hfam) e hmem
+    simp only [Bool.and_eq_true, beq_iff_eq] at this
+    unfold readerOf
+    rw [← hkey, ← hd]
+    exact ⟨this.1, by rw [← this.1]; exact this.2⟩
+
+/-- **The handler used for reading does not depend on the hint**: when the bytes identify
+container `d`, `get_cailoader_handler(resolved format)` is the handler registered under `d`
+itself, for every hint. -/
+theorem handler_hint_independent (t readers : Table) (pdf : Bool) (hint : Fmt) (s : List UInt8)
+    (d : Fmt) (hok : TableOk t pdf = true) (hfam : FamilyOk t readers = true)
+    (hd : detect pdf s = some d) :
+    readerOf readers (resolve t pdf hint s) = readerOfKey readers d
+      ∧ (readerOfKey readers d).isSome = true :=
+  reader_of_family t readers _ d hfam (detected_wins t pdf hint s d hok hd)
+
+/-! ### Obligations on the regenerated tables (re-checked on every run) -/
 
 /-- CONTAINER_MAP of the current tree maps every detectable literal to itself. -/
 theorem table_ok : TableOk Gen.table Gen.pdf = true := by decide +kernel
@@ -101,16 +306,89 @@ theorem scanned_literals_modelled :
 theorem modelled_literals_scanned :
     (detectLiterals true).all (fun l => Gen.scannedLiterals.contains l) = true := by decide +kernel
 
-/-- The theorem instantiated with the current tree's table. -/
+/-- In the current tree every registered format string selects the same reader-handler instance
+as its container id (CONTAINER_MAP and CAI_READERS still derive from one list). -/
+theorem family_same_handler : FamilyOk Gen.table Gen.readers = true := by decide +kernel
+
+/-- … and both maps have exactly the same keys. -/
+theorem reader_keys_eq_container_keys :
+    (Gen.readers.map (·.1) == Gen.table.map (·.1)) = true := by decide +kernel
+
+/-- the current table knows two families, so the hint *can* matter -/
+theorem table_two_families :
+    ∃ a b : Fmt, containerFromFormat Gen.table a ≠ containerFromFormat Gen.table b :=
+  ⟨"jpg".toList, "png".toList, by decide +kernel⟩
+
+/-- The theorems instantiated with the current tree's tables. -/
 theorem detected_wins_current (hint : Fmt) (s : List UInt8) (d : Fmt)
     (hd : detect Gen.pdf s = some d) :
     containerFromFormat Gen.table (resolve Gen.table Gen.pdf hint s) = some d :=
   detected_wins Gen.table Gen.pdf hint s d table_ok hd
+
+theorem handler_hint_independent_current (h₁ h₂ : Fmt) (s : List UInt8) (d : Fmt)
+    (hd : detect Gen.pdf s = some d) :
+    readerOf Gen.readers (resolve Gen.table Gen.pdf h₁ s)
+        = readerOf Gen.readers (resolve Gen.table Gen.pdf h₂ s)
+      ∧ (readerOf Gen.readers (resolve Gen.table Gen.pdf h₁ s)).isSome = true := by
+  have a := handler_hint_independent Gen.table Gen.readers Gen.pdf h₁ s d table_ok family_same_handler hd
+  have c := handler_hint_independent Gen.table Gen.readers Gen.pdf h₂ s d table_ok family_same_handler hd
+  exact ⟨by rw [a.1, c.1], by rw [a.1]; exact a.2⟩
+
+/-- the same for every stream behaviour (short reads, `Interrupted`, read/seek errors): whenever
+`container_from_stream` returns a container, the reader handler does not depend on the hint -/
+theorem handler_hint_independent_io_current (script : List Ev) (sf : Option Nat) (h₁ h₂ : Fmt)
+    (s : List UInt8) (d : Fmt) (hd : detectIO Gen.pdf script sf s = some d) :
+    readerOf Gen.readers (resolveIO Gen.table Gen.pdf script sf h₁ s)
+        = readerOf Gen.readers (resolveIO Gen.table Gen.pdf script sf h₂ s)
+      ∧ (readerOf Gen.readers (resolveIO Gen.table Gen.pdf script sf h₁ s)).isSome = true := by
+  have a := reader_of_family Gen.table Gen.readers _ d family_same_handler
+    (detected_wins_io Gen.table Gen.pdf script sf h₁ s d table_ok hd)
+  have c := reader_of_family Gen.table Gen.readers _ d family_same_handler
+    (detected_wins_io Gen.table Gen.pdf script sf h₂ s d table_ok hd)
+  exact ⟨by rw [a.1, c.1], by rw [a.1]; exact a.2⟩
+
+theorem hint_matters_iff_undetected_current (s : List UInt8) :
+    (∃ h₁ h₂ : Fmt,
+        containerFromFormat Gen.table (resolve Gen.table Gen.pdf h₁ s)
+          ≠ containerFromFormat Gen.table (resolve Gen.table Gen.pdf h₂ s))
+      ↔ detect Gen.pdf s = none :=
+  hint_matters_iff_undetected Gen.table Gen.pdf s table_ok table_two_families
+
+/-- the magic constants of the model spell what the source spells -/
+theorem magic_spelling :
+    b "GIF87a" = mGIF87a ∧ b "GIF89a" = mGIF89a ∧ b "RIFF" = mRIFF ∧ b "ftyp" = mFtyp
+      ∧ b "fLaC" = mFLaC ∧ b "ID3" = mID3 ∧ b "%PDF" = mPDF := by decide +kernel
 
 /-! ### Non-vacuity -/
 example : detect true [0xff, 0xd8, 0xff, 0xe0] = some "jpg".toList := by decide +kernel
 example : resolve Gen.table Gen.pdf "image/png".toList [0xff, 0xd8, 0xff, 0xe0] = "jpg".toList := by decide +kernel
 example : resolve Gen.table Gen.pdf " IMAGE/JPEG ".toList [0xff, 0xd8, 0xff, 0xe0] = " IMAGE/JPEG ".toList := by decide +kernel
 example : detect true [0x00, 0x01, 0x02] = none := by decide +kernel
+-- the handler theorem is about a real handler: nef on TIFF bytes keeps "nef" and selects the TIFF handler
+example : readerOf Gen.readers (resolve Gen.table Gen.pdf "nef".toList [0x4d, 0x4d, 0x00, 0x2a])
+    = readerOfKey Gen.readers "tif".toList := by decide +kernel
+example : (readerOfKey Gen.readers "tif".toList).isSome = true := by decide +kernel
+-- `detect_prefix` hypothesis holds for a non-ID3 buffer and fails only for ID3 headers
+example : isId3 ([0x89, 0x50, 0x4e, 0x47, 0x0d, 0x0a, 0x1a, 0x0a] ++ List.replicate 8 0) = false := by decide +kernel
+-- an ID3 stream where bytes beyond the 16th do decide (why `detect_prefix` needs its hypothesis)
+example : detect true (mID3 ++ [4, 0, 0, 0, 0, 0, 6] ++ List.replicate 6 0 ++ mFLaC) = some lFlac := by decide +kernel
+example : detect true (mID3 ++ [4, 0, 0, 0, 0, 0, 6] ++ List.replicate 6 0 ++ b "fLaX") = some lMp3 := by decide +kernel
+-- order matters only around ftyp: fLaC + ftyp is BMFF, RIFF + ftyp is RIFF
+example : detect true (mFLaC ++ mFtyp) = some lAvif := by decide +kernel
+example : detect true (mRIFF ++ mFtyp) = some lAvi := by decide +kernel
+-- `Benign` scripts exist and chop the reads; a faulty script changes the outcome
+example : Benign [Ev.chunk 1, Ev.intr, Ev.chunk 2, Ev.chunk 5] := by
+  intro ev h; simp at h; rcases h with h | h | h | h <;> subst h <;> simp
+example : detectIO true [Ev.chunk 1, Ev.intr, Ev.chunk 2, Ev.chunk 5] none [0xff, 0xd8, 0xff, 0xe0] = some lJpg := by decide +kernel
+example : detectIO true [Ev.chunk 1, Ev.fail] none [0xff, 0xd8, 0xff, 0xe0] = none := by decide +kernel
+example : detectIO true [Ev.chunk 2, Ev.chunk 0] none [0xff, 0xd8, 0xff, 0xe0] = none := by decide +kernel
+-- hypotheses of `resolveIO_read_error_uses_hint`: 3 bytes delivered, then the error
+example : Benign [Ev.chunk 3] ∧ budget [Ev.chunk 3] < 16 ∧ budget [Ev.chunk 3] < [0xff, 0xd8, 0xff, 0xe0].length := by
+  refine ⟨?_, by decide, by decide⟩
+  intro ev h; simp at h; subst h; simp
+-- `detect_eq_of_signature`: signature 3 (TIFF) present together with ftyp — TIFF (listed before ftyp) wins
+example : ((sig0 true ([0x49, 0x49, 0x2a, 0x00] ++ mFtyp) false)[3]).1 = true := by decide +kernel
+example : detect true ([0x49, 0x49, 0x2a, 0x00] ++ mFtyp) = some lTif := by decide +kernel
+example : resolveIO Gen.table true [Ev.chunk 1, Ev.fail] none "png".toList [0xff, 0xd8, 0xff, 0xe0] = "png".toList := by decide +kernel
 
 end C2pa.C11
